@@ -8,12 +8,12 @@ CLAIMED = {
         level="exploration", design="§6 C01",
         technique="deterministic simulation: real App::run + ThreadPool on humsim's in-memory TCP and virtual clock, reference HTTP clients with explicit stream segmentation, seeded schedules and network faults, reference connection model as oracle",
         text="Seeded search over application configurations, client scripts (1..8 clients, 1..6 requests each over methods x targets x versions x Connection x bodies x malformed kinds x idle gaps), explicit segmentations of the byte stream (one byte per segment up to several requests per segment), lock-step and pipelined pacing, endings (close/half-close/RST/truncation), short reads/writes, slow readers, latency, and thread schedules. Oracle: strict response-stream grammar, count/order, version/Date/Server/CORS/Content-Length/body, keep-alive disposition and self-delimitation, 400/408 mapping with virtual-time lower bound, panic isolation, handler log = requests sent. Sampling: a clean batch is evidence, not proof.",
-        note="Trusted: humsim scheduler and TCP model (reliable ordered byte stream; close with unread data modelled as orderly FIN; server-side receive window >= one client script); the reference HTTP grammar; threaded runtime only (tokio twin not covered by this check)."),
+        note="Trusted: humsim scheduler and TCP model (reliable ordered byte stream; close with unread data modelled as orderly FIN; server-side receive window >= one client script); the reference HTTP grammar; both runtimes: the threaded one under the humsim thread scheduler, the tokio one (twin phase C01T, engine humsim-tk) on a paused current_thread runtime over humsim::tokio_net."),
     "C02": dict(
         level="exploration", design="§6 C02",
         technique="deterministic simulation of the byte source: Request::from_stream over a scripted reader whose read-size plan (every split point, bytewise, random chunkings, EINTR) is the schedule; reference request model as oracle; serialise-parse round trip",
         text="Generated well-formed request models (methods, paths, queries, 0..60 headers with repeated names in random case, UTF-8 values, Cookie and X-Forwarded-For lists, bodies to 64 KiB, lines over 8 KiB) parsed under every two-chunk split of messages <= 2 KiB plus bytewise/random/EINTR plans; parsed fields must equal the model under every plan and survive serialise+parse. Split points of each sampled message are enumerated; models are sampled.",
-        note="Trusted: the reference model/renderer; sync parser only (the tokio parser is a textual twin, not exercised); at most one Cookie / X-Forwarded-For field per request."),
+        note="Trusted: the reference model/renderer; sync parser and (twin phase C02T) the async parser over a scripted AsyncRead; at most one Cookie / X-Forwarded-For field per request."),
     "C03": dict(
         level="fault_enumeration", design="§6 C03",
         technique="fault injection at the parsers' byte sources (scripted reader, simulated socket, real include files): EOF/reset at every offset, every single-byte substitution and bit flip, delimiter deletion/doubling, boundary and huge length fields, UTF-8 at every slicing position, deep nesting; isolated worker processes with a counting allocator, 2 MiB stacks, read budgets and a watchdog",
@@ -21,8 +21,8 @@ CLAIMED = {
         note="Trusted: the counting allocator and the announce protocol that attributes a dead worker to a case; Value::parse has no I/O seam (its share is plain input generation); the 256 MiB single-allocation ceiling stands in for real memory exhaustion."),
     "C09": dict(
         level="fault_enumeration", design="§6 C09",
-        technique="deterministic simulation with network fault injection: real proxy_request / proxy_handler against a scripted upstream on humsim's TCP (cut at every byte by FIN and RST, garbage, refuse, black-holed SYN, silence, accept-close, stall, trickle), virtual-time deadline, real EqMutex<LoadBalancer> under seeded schedules",
-        text="For each generated valid upstream response (39 status codes; Content-Length / chunked / close-delimited / body-less) every byte offset is cut once by FIN and once by RST; plus the other fault behaviours and valid responses from closing and keep-alive upstreams, through proxy_request and through the server's proxy_handler. Oracle: returns within timeout + 1 s of virtual time, never panics, valid response relayed (status, header multiset, body; chunked re-expressed as Content-Length), any fault gives 502, the upstream receives the request unchanged except stripped prefix and one added X-Forwarded-For, round-robin strictly in lock order.",
+        technique="deterministic simulation with network fault injection: real proxy_request / proxy_handler against a scripted upstream on humsim's TCP (cut at every byte by FIN and RST, garbage, refuse, black-holed SYN, silence, accept-close, stall, late-stall, trickle), virtual-time deadline, real EqMutex<LoadBalancer> under seeded schedules",
+        text="For each generated valid upstream response (39 status codes; Content-Length / chunked / close-delimited / body-less) every byte offset is cut once by FIN and once by RST; plus the other fault behaviours and valid responses from closing and keep-alive upstreams, through proxy_request and through the server's proxy_handler. Oracle: returns within timeout + 100 ms + 10% of virtual time, never panics, valid response relayed (status, header multiset, body; chunked re-expressed as Content-Length), any fault gives 502, the upstream receives the request unchanged except stripped prefix and one added X-Forwarded-For, round-robin strictly in lock order.",
         note="Trusted: humsim TCP model (network RTT is small relative to the timeout: slowness is the upstream script's); reference request/response models; epochs 1970..2096."),
     "C10": dict(
         level="fault_enumeration", design="§6 C10",
@@ -76,7 +76,7 @@ CLAIMED["C20"] = dict(
     level="exploration", design="§6 C20",
     technique="deterministic simulation: the real App::run with a shutdown receiver under the humsim scheduler, 0..16 connections scripted into chosen states at the virtual instant of the signal, pools incl. fully occupied ones, rendezvous and unbounded channels, unspecified bind addresses with the strict-connect knob, rebind after return",
     text="Seeded traffic states at the instant of the signal (just connected, idle keep-alive, half-sent request, handler running 5 ms / 2 s, 150 KB response to a 512-byte-window reader, WebSocket open), signal before run / before the first connection / with traffic / with the pool occupied. Oracle: run returns Ok within 1 virtual second of the signal, the address can be bound again, a response that started arrives completely, requests fully sent >= 100 virtual ms before the signal are answered (detached workers keep running in the simulation).",
-    note="Trusted: humsim scheduler/TCP/clock; threaded runtime only in this check.")
+    note="Trusted: humsim scheduler/TCP/clock; threaded runtime (mpsc receiver) and, as twin phase C20T, the tokio runtime (CancellationToken).")
 
 NA = {
     "C05": "pure function wildcard_match(&str,&str)->bool: no schedule, clock, I/O or fault in the statement; deciding it is exhaustive input enumeration, not simulation (DESIGN §7)",
@@ -129,6 +129,8 @@ def main():
         "engines": [
             {"name": "humsim", "path": "/verif/humsim", "serves_properties": sorted(CLAIMED.keys()),
              "kind_free_text": "own deterministic simulator: real OS threads under a one-baton seeded scheduler (random/sticky/PCT/rr), virtual monotonic and wall clocks, in-memory TCP with segmentation/latency/windows/FIN/RST/timeouts/short reads/EINTR, stuck detection, trace hashing; harness /verif/hv (worker processes pinned one per core, JSON scenarios, generic structural minimiser, replay files)"},
+            {"name": "humsim-tk", "path": "/verif/tk", "serves_properties": ["C01", "C02", "C20"],
+             "kind_free_text": "tokio twin of the simulator: tokio's current_thread runtime with a paused (virtual, auto-advancing) clock and rng_seed, over humsim::tokio_net (in-memory TcpListener/TcpStream with the same segmentation/latency/window/FIN/RST model, seeded spurious Pending), virtual wall clock for the Date header; the same hv harness sources built with feature tk as /verif/tk/target/release/hvtk; runs as the second phase (C01T, C02T, C20T) of `hv check C01|C02|C20`"},
         ],
         "checks": checks,
         "not_applicable": na,
